@@ -27,7 +27,7 @@ LEVEL_TEXT = ('Static analysis (dominators / guard edges, def-use, polynomial no
               'transcript outputs, and the closed-form constants have the protocol\'s values. Does not decide coefficient-level equality of the linear '
               'combination with the published relation (that needs symbolic execution of the loops).'
               " Also runs C08's weighting rules (with a shared weight the gate only enforces a combination of the members' equations) and C11's "
-              "derivation rules for the vector and blinding generators (no two positions of the relation may hold the same point).")
+              "derivation rules for the vector and blinding generators (no two positions of the relation may hold the same point), the verifier half of C04 (the relation is enforced at the Fiat-Shamir challenges) and the rule that commitment j enters under a running product of z*z.")
 ASSUMPTIONS = ['merlin challenge bytes are pseudorandom', 'Identity::identity() is the group identity and PartialEq on points is equality']
 RULE_TEXT = 'one obligation per structural fact; non-trivial = decided from a dominator, guard or value term'
 
